@@ -183,6 +183,18 @@ impl iroh_io::AsyncStreamReader for LStreamReader {
     }
 }
 
+/// a byte store (WriteAt) that logs positioned writes as OB_SAVE and flushes as OB_SYNC
+pub struct LStore(pub Vec<u8>, pub C);
+impl sync::WriteAt for LStore {
+    fn write_at(&mut self, pos: u64, buf: &[u8]) -> io::Result<usize> {
+        call(&self.1, OB_SAVE, pos as u128, buf.len() as u128)?;
+        sync::WriteAt::write_at(&mut self.0, pos, buf)
+    }
+    fn flush(&mut self) -> io::Result<()> {
+        call(&self.1, OB_SYNC, 0, 0)
+    }
+}
+
 fn kind_from(c: u128) -> io::ErrorKind {
     match c {
         0 => io::ErrorKind::Other,
@@ -246,6 +258,17 @@ pub fn fault(a: &[u128]) -> Vec<u128> {
             let r = r.and_then(|_| sync::OutboardMut::sync(&mut o));
             io_codes(&r)
         }),
+        // CreateOutboard::init_from of the io-backed outboards over a logging store
+        1 => {
+            use sync::CreateOutboard;
+            let mut o = PostOrderOutboard { root, tree: t, data: LStore(Vec::new(), c.clone()) };
+            io_codes(&o.init_from(LRead(&data, c.clone(), DATA_SEQ)))
+        }
+        9 => {
+            use sync::CreateOutboard;
+            let mut o = PreOrderOutboard { root, tree: t, data: LStore(Vec::new(), c.clone()) };
+            io_codes(&o.init_from(LRead(&data, c.clone(), DATA_SEQ)))
+        }
         // sync post-order writer
         3 => {
             let mut w = LWrite(Vec::new(), c.clone());
